@@ -452,6 +452,14 @@ func (c *SpecCtx) ident(name string) SV {
 	case "MaxInt64":
 		return SV{V: T{"9223372036854775807", "IntLit"}}
 	}
+	if c.fr != nil && strings.Contains(name, "_") {
+		// hidden SSA locals such as rangeint.iter are written rangeint_iter in specs
+		if _, ok := c.fr.Cells[name]; !ok {
+			if cell, ok := c.fr.Cells[strings.ReplaceAll(name, "_", ".")]; ok {
+				return SV{V: c.st.Cells[cell], T: cell.Typ}
+			}
+		}
+	}
 	if c.inLoop && c.fr != nil && !c.inOld {
 		if cell, ok := c.fr.Cells[name]; ok {
 			return SV{V: c.st.Cells[cell], T: cell.Typ}
@@ -739,6 +747,38 @@ func (c *SpecCtx) call(n *ast.CallExpr) SV {
 			}
 		}
 		return c.bad("captured: closure has no free variable %s", name)
+	case "apre", "apost":
+		// apre(k)/apost(k): value observed / left by the k-th atomic operation of this call
+		k := c.intArg(n.Args[0])
+		key := "atomic.pre:" + k.S
+		if fn.Name == "apost" {
+			key = "atomic.post:" + k.S
+		}
+		if v, ok := c.st.Ghost[key]; ok {
+			ty := types.Type(types.Typ[types.Uint64])
+			if t, ok := v.(T); ok && t.So.BVWidth() == 32 {
+				ty = types.Typ[types.Int32]
+			}
+			return SV{V: v, T: ty}
+		}
+		return SV{V: c.e.freshConst("noatomic", BV(64)), T: types.Typ[types.Uint64]}
+	case "atomics":
+		k := 0
+		fmt.Sscan(c.st.Facts["atomics"], &k)
+		return SV{V: T{fmt.Sprintf("%d", k), "IntLit"}}
+	case "aop":
+		// aop(k): name of the k-th atomic operation ("Load", "Add", "CompareAndSwap", ...)
+		k := c.intArg(n.Args[0])
+		if v, ok := c.st.Ghost["atomic.op:"+k.S]; ok {
+			return SV{V: v}
+		}
+		return SV{V: c.e.strConst("<none>")}
+	case "sent", "recvd":
+		ch := c.coerceTo(c.eval(n.Args[0]), SChan)
+		return SV{V: e.regionRead(c.st, "chan."+fn.Name, []Sort{SChan}, e.cntSort(), ch), T: types.Typ[types.Uint64]}
+	case "closed":
+		ch := c.coerceTo(c.eval(n.Args[0]), SChan)
+		return SV{V: e.regionRead(c.st, "chan.closed", []Sort{SChan}, SBool, ch)}
 	case "lasterr":
 		// lasterr(ctx): what the most recent ctx.Err() on this path (since the last loop cut) returned
 		x := c.coerceTo(c.eval(n.Args[0]), SAny)
